@@ -528,7 +528,7 @@ def type_estimator(prog, name, role_of, weighted):
     return fi, explore(run)
 
 
-def check_typing(chk, prog, LOCATION, SCALE):
+def check_typing(chk, prog, LOCATION, SCALE, floor=10):
     chk.rule("translation-typing", "location estimator: every path returns LOC; scale estimator: every path returns INV of degree 1 (degree not checked "
              "where the body clamps a degree-1 value with an absolute constant -- the biweights)")
     role_of = {**{k: "location" for k in LOCATION}, **{k: "scale" for k in SCALE}}
@@ -572,7 +572,7 @@ def check_typing(chk, prog, LOCATION, SCALE):
         bad = sorted(set(bad))
         chk.decide(not bad, "translation-typing", f"{name}: {paths} path(s) typed {'LOC' if name in LOCATION else 'INV, degree 1'}", f"{fi.qn}::typing", fi.loc(),
                    "; ".join(bad), witness=dict(paths=paths, role="location" if name in LOCATION else "scale"), cells=max(paths, 1))
-    chk.floor("estimators typed", n, 10)
+    chk.floor("estimators typed", n, floor)
 
 
 # ---------------------------------------------------------------------------------------------- D5: constant data
